@@ -141,34 +141,147 @@ def classify_query(ks, x):
 
 
 # ------------------------------------------------------------------------------ running and comparing
-def cmp_out(a, b):
-    """element-wise: marked floats with tolerance, everything else exact. Returns index of first difference or -1"""
-    if len(a) != len(b):
-        n = min(len(a), len(b))
-        for i in range(n):
-            if not same_item(a[i], b[i]):
-                return i
-        return n
-    for i in range(len(a)):
-        if not same_item(a[i], b[i]):
+def cmp_out(a, b, case=None):
+    """element-wise: marked floats with tolerance (scaled per number, see float_scales), everything else
+    exact. Returns index of first difference or -1"""
+    sc = None
+    if case is not None and len(a) == len(b):
+        sc = float_scales(case, a, b)
+    n = min(len(a), len(b))
+    for i in range(n):
+        if not same_item(a[i], b[i], sc[i] if sc else 0.0):
             return i
-    return -1
+    return -1 if len(a) == len(b) else n
 
 
-def same_item(p, q):
+def same_item(p, q, scale=0.0):
     if p >= FMARK and q >= FMARK:
-        return fsame(b2f(p - FMARK), b2f(q - FMARK))
+        return fsame(b2f(p - FMARK), b2f(q - FMARK), scale)
     return p == q
 
 
-def fsame(a, b):
-    """1e-9 relative (plus 1e-13 absolute: sums of rounded terms that cancel); NaN / inf classes must match"""
+def fsame(a, b, scale=0.0):
+    """1e-9 relative, plus an absolute 1e-11 * scale where `scale` is the magnitude of the terms that are
+    summed inside the number the float belongs to (its largest component and first-derivative^2 / value):
+    libm's exp/ln and the model's differ at 1e-13 relative, and a Hessian entry that cancels to (nearly) zero
+    inherits that error at the scale of its terms.  NaN / inf classes must match."""
     ca, cb = fclass(a), fclass(b)
     if ca != cb:
         return False
     if ca != "fin":
         return True
-    return abs(a - b) <= 1e-9 * max(abs(a), abs(b)) + 1e-13
+    return abs(a - b) <= 1e-9 * max(abs(a), abs(b)) + 1e-11 * scale + 1e-13
+
+
+class _P:
+    def __init__(self, o):
+        self.o = o
+        self.i = 0
+
+    def nxt(self):
+        v = self.o[self.i]
+        self.i += 1
+        return v
+
+
+def _parse_number(p, grp):
+    """consumes one encoded Number, appends (positions of floats, re, du list) to grp"""
+    kind = p.nxt()
+    pos = []
+    if kind == 0:
+        pos.append(p.i)
+        p.nxt()
+        grp.append((pos, kind))
+        return kind
+    nv = p.nxt()
+    for _ in range(nv):
+        ln = p.nxt()
+        p.i += ln
+    pos.append(p.i)
+    p.nxt()
+    nd = p.nxt()
+    for _ in range(nd):
+        pos.append(p.i)
+        p.nxt()
+    if kind == 2:
+        r, c = p.nxt(), p.nxt()
+        for _ in range(r * c):
+            pos.append(p.i)
+            p.nxt()
+    grp.append((pos, kind))
+    return kind
+
+
+def float_scales(case, a, b):
+    """per output position: the tolerance scale of the number it belongs to (0 for non-floats / on any
+    parse problem)"""
+    sc = [0.0] * len(a)
+    if case[0] != 10 or not a or a[0] != 0:
+        return sc
+    try:
+        head, acts = split_case(case)
+        p = _P(a)
+        p.nxt()
+        groups = []
+        for act in acts:
+            k = act[0]
+            if k in (0, 5, 6):
+                oc = p.nxt()
+                if oc != 0:
+                    continue
+                g = []
+                kind = _parse_number(p, g)
+                pos = g[0][0]
+                if k == 6 and kind >= 1:
+                    n1 = p.nxt()
+                    for _ in range(n1):
+                        pos.append(p.i)
+                        p.nxt()
+                    if kind == 2:
+                        r, c = p.nxt(), p.nxt()
+                        for _ in range(r * c):
+                            pos.append(p.i)
+                            p.nxt()
+                groups.append(pos)
+            elif k == 1:
+                oc = p.nxt()
+                if oc == 0:
+                    p.nxt()
+            elif k == 2:
+                p.nxt()
+            elif k == 3:
+                oc = p.nxt()
+                if oc == 0:
+                    p.nxt()
+            elif k == 4:
+                oc = p.nxt()
+                if oc != 0:
+                    continue
+                n = p.nxt()
+                for _ in range(n):
+                    p.nxt()
+                    g = []
+                    _parse_number(p, g)
+                    groups.append(g[0][0])
+        for pos in groups:
+            vals = []
+            for i in pos:
+                for o in (a, b):
+                    if o[i] >= FMARK:
+                        v = b2f(o[i] - FMARK)
+                        if math.isfinite(v):
+                            vals.append(abs(v))
+            if not vals:
+                continue
+            re_ = abs(b2f(a[pos[0]] - FMARK)) if a[pos[0]] >= FMARK else 0.0
+            m = max(vals)
+            s2 = m * m / re_ if re_ > 1e-300 and math.isfinite(re_) else m
+            scale = max(m, s2 if math.isfinite(s2) else m)
+            for i in pos:
+                sc[i] = scale
+    except (IndexError, ValueError, OverflowError):
+        return [0.0] * len(a)
+    return sc
 
 
 def fmt_out(o, limit=60):
@@ -242,7 +355,7 @@ def shrink(ctx, case):
         return case
     impl, model = run_both(ctx, cands, tag="shrink")
     for c, a, b in zip(cands, impl, model):
-        if cmp_out(a, b) >= 0:
+        if cmp_out(a, b, c) >= 0:
             return c
     return case
 
@@ -306,7 +419,7 @@ def compare_all(ctx, cases, impl, model, weights=None, do_shrink=True):
     nbad = 0
     for idx, (c, a, b) in enumerate(zip(cases, impl, model)):
         ctx.evaluations += weights[idx] if weights else 1
-        d = cmp_out(a, b)
+        d = cmp_out(a, b, c)
         if d < 0:
             continue
         nbad += 1
@@ -316,7 +429,7 @@ def compare_all(ctx, cases, impl, model, weights=None, do_shrink=True):
         if c2 is not c:
             a2, b2 = run_both(ctx, [c2], tag="shr1")
             a, b = a2[0], b2[0]
-            d = cmp_out(a, b)
+            d = cmp_out(a, b, c2)
         ctx.violation(
             "the implementation disagrees with the proved model on %s: implementation [%s] model [%s] "
             "(first difference at output position %d; outcomes are 0 ... = Ok, 1 = Err, 2 = abort)" % (
@@ -331,7 +444,7 @@ def replay_case(ctx, rp):
     build_coq(["theories/Run/RunCurve.vo"])
     c = list(rp["case"])
     a, b = run_both(ctx, [c], tag="replay")
-    d = cmp_out(a[0], b[0])
+    d = cmp_out(a[0], b[0], c)
     print("replay %s:\n implementation [%s]\n model          [%s]\n %s" % (
         describe(c), fmt_out(a[0]), fmt_out(b[0]), "AGREE" if d < 0 else "DISAGREE at output position %d" % d))
     ctx.cleanup()
